@@ -477,6 +477,11 @@ impl TreeSink for RcDom {
 
         remove_from_parent(&child);
 
+        // The node may have been an earlier child of the same parent, so the
+        // sibling's position has to be looked up again after detaching it.
+        let (parent, i) = get_parent_and_index(sibling)
+            .expect("append_before_sibling called on node without parent");
+
         child.parent.set(Some(Rc::downgrade(&parent)));
         parent.children.borrow_mut().insert(i, child);
     }
